@@ -206,6 +206,18 @@ def rule_T9_pcapng(tree: Tree) -> RuleResult:
                 bad.append(f"`{src(n.ast)}` under {[s for s, t in facts if t][:2]}")
     r.ob(not bad, Finding("T9p", "dpkt_dsb:Reader.__iter__:only-eof-ends",
                           f"the block loop may only end at end of file (`len(buf) < 8`); found {bad}: blocks after an interspersed non-packet block (statistics, name resolution, custom) would be dropped", m.line(it.node)))
+    # what the reader hands out: exactly (ts, <block>.pkt_data) — the captured bytes of the block, untrimmed — once per packet / secrets block
+    r.instances += 1
+    ys = [n for n in body_walk(it.node) if isinstance(n, ast.Yield)]
+    bady = []
+    for y in ys:
+        v = y.value
+        if not (isinstance(v, ast.Tuple) and len(v.elts) == 2 and dotted(v.elts[0]) == "ts" and isinstance(v.elts[1], ast.Attribute) and v.elts[1].attr == "pkt_data"
+                and isinstance(v.elts[1].value, ast.Name)):
+            bady.append(src(y, 80))
+    r.ob(len(ys) == 3 and not bady, Finding("T9p", "dpkt_dsb:Reader.__iter__:yield-shape",
+                                            f"Reader.__iter__ must yield (ts, block.pkt_data) for EPB, PB and DSB blocks — the captured bytes as they are (the legacy pcap reader does "
+                                            f"the same); found {bady or len(ys)}", m.line(it.node)))
     # DSB marker: the reader yields ts = -1 for DSB payloads; run() tests ts == -1
     r.instances += 1
     marker = None
